@@ -268,6 +268,45 @@ def check_clone_faithful(chk, prog):
             chk.ok(R, f"{key[0]}.{key[1]}:table-entry-unused", "listed field is now copied faithfully (entry no longer needed)")
 
 
+def check_push_chain(chk, prog):
+    R = chk.rule("R-PUSH-CHAIN", "EGraph::push: the snapshot stored in self.pushed_egraph is a Clone::clone of self taken in this call, and the previously pushed snapshot (taken out of "
+                 "self.pushed_egraph first) is stored into that snapshot's pushed_egraph, so the stack of snapshots stays a chain: pop after a nested push restores the outer snapshot")
+    f = prog.need("egglog::EGraph::push")
+    clones = [c for c in f.calls if c.p.endswith("EGraph as core::clone::Clone>::clone") or (c.p.endswith("Clone>::clone") and "EGraph" in c.p)]
+    takes = [c for c in f.calls if c.p.endswith("Option::take") and any(a[0] == "param" and a[2][-1:] == ("pushed_egraph",) for a in f.origins(c.args[0]))]
+    ok = bool(clones) and bool(takes)
+    why = "no clone of self / no take of the previous snapshot"
+    if ok:
+        cl = clones[0]
+        # prev.pushed_egraph = prev_prev
+        link = False
+        store_self = False
+        OPQ = ("Clone>::clone", "Clone::clone")
+
+        def deep(o, d=0):
+            out = set()
+            for a in f.origins(o, opaque=OPQ):
+                if a[0] == "agg" and d < 3:
+                    st = f.stmt(a[4], a[5])
+                    for x in st[2][4]:
+                        out |= deep(x, d + 1)
+                else:
+                    out.add(a)
+            return out
+        for i, j, s2 in f.assigns():
+            pj = [e for e in s2[1][1] if not isinstance(e, str)]
+            if pj and pj[-1][0] == "f" and pj[-1][2] == "pushed_egraph" and s2[2][0] == "use":
+                base = f.origins([s2[1][0], []], opaque=OPQ)
+                val = deep(s2[2][1])
+                if any(a[0] == "call" and a[2] == cl.bb for a in base) and any(a[0] == "param" and a[1] == 1 and a[2][-1:] == ("pushed_egraph",) for a in val):
+                    link = True
+                if s2[1][0] == 1 and any(a[0] == "call" and a[2] == cl.bb for a in val):
+                    store_self = True
+        ok = link and store_self and f.dominates(takes[0].bb, cl.bb)
+        why = f"link previous snapshot: {link}; store clone: {store_self}; previous snapshot taken before cloning: {f.dominates(takes[0].bb, cl.bb)}"
+    chk.judge(ok, R, "egglog::EGraph::push", "snapshot = clone of self, chained to the previously pushed snapshot", why, f.loc)
+
+
 def run(chk, prog, tier):
     chk.explanation = EXPLANATION
     chk.assumptions = [
@@ -279,3 +318,4 @@ def run(chk, prog, tier):
     check_pop(chk, prog)
     check_liveness(chk, prog)
     check_clone_faithful(chk, prog)
+    check_push_chain(chk, prog)
